@@ -14,7 +14,7 @@ from .C01 import apply_rules, CIRCUIT
 def run(ck: Checker):
     repo = ck.repo
     den = Denotations(repo)
-    max_n = 3 if ck.tier == 'quick' else 4
+    max_n = 4 if ck.tier == 'quick' else 5
     ck.rule('C15.KLEENE', 'for every operator and every operand tuple over {False, True, Undefined} (arity <= 3, 4 thorough; this covers the fold composition): '
                           'a defined result equals the result under every completion of the undefined operands; all-defined operands give a defined result')
     ck.rule('C15.DEFAULT', 'both evaluators default every unassigned input to Undefined before evaluating, and gate values flow only through operators (C01.APPLY)')
@@ -56,7 +56,7 @@ def run(ck: Checker):
             ck.check(not probs, 'C15.KLEENE', den.ops, opfn, f'{t._operator}/{n}: defined results are stable under every completion',
                      '; '.join(probs[:3]), construct=f'{t._operator} three-valued /{n}')
     ck.notes['three_valued_entries_enumerated'] = n_entries
-    ck.floor('C15.KLEENE', 28)
+    ck.floor('C15.KLEENE', 34)
 
     m = repo.mod(CIRCUIT)
     for fname in ('Circuit.evaluate_full_circuit', 'Circuit.evaluate_circuit'):
